@@ -72,7 +72,12 @@ func (ex *Exec) lvalue(e ast.Expr) *lval {
 		var curTyp types.Type
 		var curVal Val
 		isPtr := isPointer(xt)
-		if isPtr {
+		if ref, ok := ex.boxedStructRef(e.X); ok {
+			// field of an address-taken struct variable: the variable lives in the heap
+			isPtr = true
+			curVal = Val{ref, types.NewPointer(xt)}
+			curTyp = types.NewPointer(xt)
+		} else if isPtr {
 			curVal = ex.eval(e.X)
 			curTyp = xt
 		} else {
@@ -490,7 +495,7 @@ func (ex *Exec) execIf(s *ast.IfStmt) {
 func (ex *Exec) mergeBack(base *State, sts ...*State) *State {
 	allSame := true
 	for _, s := range sts {
-		if s.dead || !sameEnv(s, base) {
+		if s.dead || !ex.untouched[s] || !sameEnv(s, base) {
 			allSame = false
 			break
 		}
@@ -948,6 +953,19 @@ func (ex *Exec) execLoop(lp *loopParts) {
 		}
 	}
 	invs("entry")
+	var heapKeys []string
+	for k := range mod {
+		if strings.HasPrefix(k, "$H.") || strings.HasPrefix(k, "$G.") || strings.HasPrefix(k, "$P.") {
+			heapKeys = append(heapKeys, k)
+		}
+	}
+	sortStrings(heapKeys)
+	if len(heapKeys) > 0 && ex.quiet == 0 {
+		ex.curPos = lp.pos
+		if g := ex.frameFormula(ex.st, heapKeys); g != True {
+			ex.assert("O", lname+"-frame-entry", g)
+		}
+	}
 	// 3. havoc
 	var keys []string
 	for k := range mod {
@@ -963,6 +981,9 @@ func (ex *Exec) execLoop(lp *loopParts) {
 		}
 	}
 	invs("assume")
+	if len(heapKeys) > 0 {
+		ex.assume(ex.frameFormula(ex.st, heapKeys))
+	}
 	variant := func() *T {
 		if ls.lc != nil && ls.lc.Decreases != nil {
 			sc := ex.specHere(lp.pos)
@@ -993,6 +1014,12 @@ func (ex *Exec) execLoop(lp *loopParts) {
 	if !ex.st.dead {
 		ex.curPos = lp.pos
 		invs("preserved")
+		if len(heapKeys) > 0 && ex.quiet == 0 {
+			ex.curPos = lp.pos
+			if g := ex.frameFormula(ex.st, heapKeys); g != True {
+				ex.assert("O", lname+"-frame-preserved", g)
+			}
+		}
 		if v0 != nil {
 			v1 := variant()
 			ex.curPos = lp.pos
@@ -1114,4 +1141,21 @@ func (ex *Exec) execRange(s *ast.RangeStmt) {
 	}
 	ex.execLoop(lp)
 	delete(ex.st.env, idxKey)
+}
+
+// boxedStructRef returns the heap reference of an address-taken local struct variable.
+func (ex *Exec) boxedStructRef(x ast.Expr) (*T, bool) {
+	id, ok := ast.Unparen(x).(*ast.Ident)
+	if !ok {
+		return nil, false
+	}
+	o, ok := ex.info().ObjectOf(id).(*types.Var)
+	if !ok || !ex.boxed[o] || isPointer(o.Type()) || structOf(o.Type()) == nil {
+		return nil, false
+	}
+	ref := ex.st.env[ex.keyOf(o)]
+	if ref == nil {
+		return nil, false
+	}
+	return ref, true
 }
